@@ -25,6 +25,32 @@ SAMPLES = [("_handle_core_UpEvent", "core"), ("_handle_openflow_ConnectionUp", "
            ("_handle_openflow_discovery_LinkEvent", "openflow_discovery"), ("_handle_host_tracker_HostEvent", "host_tracker"),
            ("_handle_a_b_c_X", "a_b_c"), ("_handle_PacketIn", None), ("handle_core_UpEvent", None), ("_all_dependencies_met", None)]
 
+def _wants_second_pass (repo, mod, g, core):
+  """{result of _try_waiter: does a second pass try the waiters again?} decided by constant propagation in three
+  stages: entry -> first statement of the loop body (b0) -> b0 again -> a _try_waiter call"""
+  out = {}
+  tw_nodes = g.nodes_with_call(lambda c: call_name(c) == '_try_waiter')
+  for (s_, h, a) in g.loop_nodes:
+    if not isinstance(s_, ast.While): continue
+    firsts = [n for n in g.nodes if n.ast is not None and s_.body and (n.ast is s_.body[0] or n.stmt is s_.body[0])]
+    firsts = sorted(firsts, key=lambda n: n.id)[:1]
+    if not firsts: continue
+    b0 = firsts[0]
+    for result in (True, False):
+      def hook (call, result=result):
+        if call_name(call) == '_try_waiter': return (True, result)
+        return (False, None)
+      env0 = q.Env({'self._waiters': ['w1', 'w2']}, [], hook)
+      again = False
+      for p1, e1 in q.paths_under(repo, mod, g, env0, g.entry, [b0, g.exit, g.raise_exit], core, limit=50):
+        if p1[-1] is not b0: continue
+        for p2, e2 in q.paths_under(repo, mod, g, e1, b0, [b0, g.exit, g.raise_exit], core, limit=100, track_start=True):
+          if p2[-1] is not b0 or not any(n in tw_nodes for n in p2): continue
+          for p3, e3 in q.paths_under(repo, mod, g, e2, b0, tw_nodes + [g.exit, g.raise_exit], core, limit=100, track_start=True):
+            if p3[-1] in tw_nodes or (b0 in tw_nodes): again = True
+      out[result] = out.get(result, False) or again
+  return out
+
 def run (ctx):
   ctx.explanation = EXPLAIN
   ctx.assumptions = ["callbacks and event handlers are unknown code and may re-enter register/call_when_ready"]
@@ -57,21 +83,27 @@ def run (ctx):
     call = [x for x in q.node_calls(c) if isinstance(x.func, ast.Name) and x.func.id == 'callback'][0]
     stars = [norm(a.value) for a in call.args if isinstance(a, ast.Starred)] + [norm(k.value) for k in call.keywords if k.arg is None]
     ctx.ob('R-AGREE', tw, "callback receives the arguments stored with the entry", len(stars) == 2, "callback(%s)" % ", ".join(stars), (mod, c.ast), 'D1')
-  # readiness: removal unreachable when some named component is missing
-  miss = lambda e: isinstance(e, ast.Call) and call_name(e) == 'hasComponent'
-  r = q.reach_under(repo, mod, g, q.Env({'%s not in self._waiters' % ent: False}, [(miss, False)]), core)
-  leaked = [n for n in rm + cb if n in r]
-  # the loop may be empty (no components): that path legitimately reaches the removal. Distinguish by requiring that
-  # inside the loop body the not-ready branch returns.
-  loops = [(s_, h, a) for (s_, h, a) in g.loop_nodes if isinstance(s_, ast.For)]
-  okl = False
-  for s_, h, a in loops:
-    body = g.loop_body_nodes(h)
-    rets = [n for n in g.nodes if n.kind == 'return' and any(miss(x) for f_ in q.guard_facts(g, n) for x in ast.walk(f_[0]))]
-    if rets and all(any(g.dominates(h, x) for x in [r_]) for r_ in rm): okl = True
-    ctx.ob('R-ALL', tw, "every named component is checked", norm(s_.iter) == 'components' and not [n for n in g.nodes if n.kind == 'break' and any(m is a for m, l in n.succ)], "for c in components, no break", (mod, s_), 'D1')
-  ctx.ob('R-DOM', tw, "nothing fires while a named component is missing", okl, "a missing component returns before the removal" if okl else
-         "the readiness loop no longer returns before removal/callback when a component is missing", tw, 'D1')
+  # readiness, decided by evaluation: the entry names two components; removal / callback must be reachable only when
+  # hasComponent() is true for both (loop, all(), any(not ...) forms alike)
+  sample = ('<cb>', '<name>', ['a', 'b'], (), {})
+  def run_case (have):
+    class H(object):
+      wants_env = True
+      def __call__ (self_, call, env):
+        if call_name(call) == 'hasComponent' and call.args:
+          try: v = q.eval_env2(repo, mod, call.args[0], env, core)
+          except Exception: return (False, None)
+          return (True, v in have)
+        return (False, None)
+    env = q.Env({ent: sample, '%s in self._waiters' % ent: True, '%s not in self._waiters' % ent: False}, [], H())
+    seen = set()
+    for path, fe in q.paths_under(repo, mod, g, env, g.entry, [g.exit, g.raise_exit], core, limit=300): seen.update(path)
+    return any(n in seen for n in rm + cb)
+  cases = {'none': run_case(()), 'first only': run_case(('a',)), 'second only': run_case(('b',)), 'both': run_case(('a', 'b'))}
+  good = cases['both'] and not cases['none'] and not cases['first only'] and not cases['second only']
+  ctx.ob('R-DOM', tw, "nothing fires while a named component is missing", good, "removal/callback reachable only when every named component is registered" if good else
+         "with components ['a','b'], removal/callback reachability by registered set is %s (expected: only for both): a waiter fires before all its components exist, or never" % cases, tw, 'D1')
+  ctx.ob('R-ALL', tw, "every named component is checked", not cases['first only'] and not cases['second only'], "a single missing component (first or second) blocks the waiter", tw, 'D1')
   # ---- D2 register ---------------------------------------------------------------
   g = q.cfg_of(reg)
   store = [q.enclosing_stmt_node(g, s_) for t, v, s_, k in q.stores_in(reg.node) if isinstance(t, ast.Subscript) and norm(t.value) == 'self.components']
@@ -102,16 +134,22 @@ def run (ctx):
   g = q.cfg_of(tws)
   fl = [(s_, h, a) for (s_, h, a) in g.loop_nodes if isinstance(s_, ast.For)]
   wl = [(s_, h, a) for (s_, h, a) in g.loop_nodes if isinstance(s_, ast.While)]
-  ctx.floor('waiter sweep loops', len(fl) + len(wl), 2)
+  comps = [n for n in ast.walk(tws.node) if isinstance(n, (ast.ListComp, ast.GeneratorExp)) and any(call_name(c) == '_try_waiter' for c in calls_in(n.elt))]
+  ctx.floor('waiter sweep loops', len(fl) + len(wl) + len(comps), 2)
+  for cp in comps:
+    it = cp.generators[0].iter
+    snap = isinstance(it, ast.Call) and call_name(it) in ('list', 'tuple') or isinstance(it, ast.Subscript)
+    ctx.ob('R-ITERMUT', tws, "the sweep iterates a copy of the waiter list", snap, norm(it) if snap else "the sweep iterates `%s` directly while _try_waiter removes entries from it: waiters are skipped" % norm(it), (mod, cp), 'D4')
   for s_, h, a in fl:
     snap = isinstance(s_.iter, ast.Call) and call_name(s_.iter) in ('list', 'tuple') or isinstance(s_.iter, ast.Subscript)
     ctx.ob('R-ITERMUT', tws, "the sweep iterates a copy of the waiter list", snap, norm(s_.iter) if snap else
            "the sweep iterates `%s` directly while _try_waiter removes entries from it: waiters are skipped" % norm(s_.iter), (mod, s_), 'D4')
+  # fixpoint decided by evaluation: with two waiters, the sweep is repeated iff some _try_waiter() returned true
+  sp = _wants_second_pass(repo, mod, g, core)
+  good = sp.get(True) is True and sp.get(False) is False
   for s_, h, a in wl:
-    flag = norm(s_.test)
-    sets = [q.enclosing_stmt_node(g, x) for t, v, x, k in q.stores_in(tws.node) if isinstance(t, ast.Name) and t.id == flag and isinstance(v, ast.Constant) and v.value is True and q.enclosing_stmt_node(g, x) in g.loop_body_nodes(h)]
-    good = bool(sets) and any(any('_try_waiter' in f and f.endswith(':truthy') for f in q.fact_strs(g, n)) for n in sets)
-    ctx.ob('R-ALL', tws, "the sweep repeats until no waiter fired (callbacks may register more components)", good, "while %s: ... %s = True when a waiter fired" % (flag, flag) if good else "no fixpoint: a component registered by a callback does not release its own dependents", (mod, s_), 'D4')
+    ctx.ob('R-ALL', tws, "the sweep repeats until no waiter fired (callbacks may register more components)", good,
+           "one pass when nothing fired, another pass after a waiter fired" if good else "no fixpoint: a component registered by a callback does not release its own dependents", (mod, s_), 'D4')
   # ---- D5 listen_to_dependencies -----------------------------------------------------
   g = q.cfg_of(ltd)
   cw = g.nodes_with_call(lambda c: call_name(c) == 'call_when_ready')
